@@ -170,11 +170,15 @@ type nullSender struct{}
 func (*nullSender) Prepare(context.Context, *core.Endpoint, string, []byte, uint32, []*core.Endpoint) error {
 	return errors.New("no sender")
 }
-func (*nullSender) Execute(context.Context, *core.Endpoint, string) error { return errors.New("no sender") }
+func (*nullSender) Execute(context.Context, *core.Endpoint, string) error {
+	return errors.New("no sender")
+}
 func (*nullSender) Commit(context.Context, *core.Endpoint, string, []byte) ([]byte, []byte, error) {
 	return nil, nil, errors.New("no sender")
 }
-func (*nullSender) Abort(context.Context, *core.Endpoint, string) error { return errors.New("no sender") }
+func (*nullSender) Abort(context.Context, *core.Endpoint, string) error {
+	return errors.New("no sender")
+}
 func (*nullSender) SendContribution(context.Context, *core.Endpoint, string, bls.SecretKey, []bls.PublicKey) (bls.SecretKey, []bls.PublicKey, error) {
 	return bls.SecretKey{}, nil, errors.New("no sender")
 }
@@ -186,15 +190,17 @@ type Tamper func(msg *ClusterMsg) error
 
 // ClusterMsg describes one DKG message in flight (mutable by a Tamper).
 type ClusterMsg struct {
-	Kind      string // prepare, execute, commit, abort, contribute
-	From, To  uint64
-	Account   string
-	Threshold uint32
-	Secret    *bls.SecretKey
-	VVec      *[]bls.PublicKey
-	Seq       int
-	Duplicate bool // deliver twice
-	Drop      bool // do not deliver: the sender sees an error
+	Kind         string // prepare, execute, commit, abort, contribute
+	From, To     uint64
+	Account      string
+	Threshold    uint32
+	Secret       *bls.SecretKey
+	VVec         *[]bls.PublicKey
+	Seq          int
+	Duplicate    bool     // deliver twice
+	Drop         bool     // do not deliver: the sender sees an error
+	ErrorReply   bool     // deliver, but the sender sees an error (the reply is lost)
+	Participants []uint64 // prepare: the participant list, in message order
 }
 
 type Cluster struct {
@@ -203,6 +209,7 @@ type Cluster struct {
 	mu     sync.Mutex
 	seq    int
 	Log    []ClusterMsg // every message (after tampering), in order of sending
+	Panics []string     // panics raised inside a receiving instance (a real daemon would have crashed)
 	// CommitOrder, when set, delays commit replies so that they arrive in this order of recipient ids
 	commitGate *orderGate
 }
@@ -234,12 +241,26 @@ func (c *Cluster) note(m *ClusterMsg) error {
 	return nil
 }
 
+// guard turns a panic inside a receiving instance into an error for the sender and records it.
+func (c *Cluster) guard(what string, err *error) {
+	if x := recover(); x != nil {
+		c.mu.Lock()
+		c.Panics = append(c.Panics, fmt.Sprintf("%s: %v", what, x))
+		c.mu.Unlock()
+		*err = fmt.Errorf("peer crashed: %v", x)
+	}
+}
+
 func (s *clusterSender) peerCtx(ctx context.Context) context.Context {
 	return ctxWithClient(ctx, nodeName(s.from), "")
 }
 
-func (s *clusterSender) Prepare(ctx context.Context, r *core.Endpoint, account string, pass []byte, threshold uint32, parts []*core.Endpoint) error {
+func (s *clusterSender) Prepare(ctx context.Context, r *core.Endpoint, account string, pass []byte, threshold uint32, parts []*core.Endpoint) (err error) {
+	defer s.c.guard("prepare", &err)
 	m := &ClusterMsg{Kind: "prepare", From: s.from, To: r.ID, Account: account, Threshold: threshold}
+	for _, p := range parts {
+		m.Participants = append(m.Participants, p.ID)
+	}
 	if err := s.c.note(m); err != nil {
 		return err
 	}
@@ -251,34 +272,48 @@ func (s *clusterSender) Prepare(ctx context.Context, r *core.Endpoint, account s
 	for _, p := range parts {
 		req.Participants = append(req.Participants, &pb.Endpoint{Id: p.ID, Name: p.Name, Port: p.Port})
 	}
-	_, err := node.Receiver.Prepare(s.peerCtx(ctx), req)
+	_, err = node.Receiver.Prepare(s.peerCtx(ctx), req)
 	if err == nil && m.Duplicate {
 		_, _ = node.Receiver.Prepare(s.peerCtx(ctx), req)
+	}
+	if err == nil && m.ErrorReply {
+		return errors.New("reply lost")
 	}
 	return err
 }
 
-func (s *clusterSender) Execute(ctx context.Context, r *core.Endpoint, account string) error {
+func (s *clusterSender) Execute(ctx context.Context, r *core.Endpoint, account string) (err error) {
+	defer s.c.guard("execute", &err)
 	m := &ClusterMsg{Kind: "execute", From: s.from, To: r.ID, Account: account}
 	if err := s.c.note(m); err != nil {
 		return err
 	}
 	node := s.c.Nodes[r.ID]
-	_, err := node.Receiver.Execute(s.peerCtx(ctx), &pb.ExecuteRequest{Account: account})
+	_, err = node.Receiver.Execute(s.peerCtx(ctx), &pb.ExecuteRequest{Account: account})
 	if err == nil && m.Duplicate {
 		_, _ = node.Receiver.Execute(s.peerCtx(ctx), &pb.ExecuteRequest{Account: account})
+	}
+	if err == nil && m.ErrorReply {
+		return errors.New("reply lost")
 	}
 	return err
 }
 
-func (s *clusterSender) Commit(ctx context.Context, r *core.Endpoint, account string, data []byte) ([]byte, []byte, error) {
+func (s *clusterSender) Commit(ctx context.Context, r *core.Endpoint, account string, data []byte) (pk []byte, sig []byte, err error) {
 	m := &ClusterMsg{Kind: "commit", From: s.from, To: r.ID, Account: account}
 	if err := s.c.note(m); err != nil {
 		return nil, nil, err
 	}
 	node := s.c.Nodes[r.ID]
-	res, err := node.Receiver.Commit(s.peerCtx(ctx), &pb.CommitRequest{Account: account, ConfirmationData: data})
-	if g := s.c.commitGate; g != nil {
+	var res *pb.CommitResponse
+	func() {
+		defer s.c.guard("commit", &err)
+		res, err = node.Receiver.Commit(s.peerCtx(ctx), &pb.CommitRequest{Account: account, ConfirmationData: data})
+	}()
+	s.c.mu.Lock()
+	g := s.c.commitGate
+	s.c.mu.Unlock()
+	if g != nil {
 		g.wait(r.ID)
 		defer g.done(r.ID)
 	}
@@ -298,7 +333,9 @@ func (s *clusterSender) Abort(ctx context.Context, r *core.Endpoint, account str
 	return err
 }
 
-func (s *clusterSender) SendContribution(ctx context.Context, r *core.Endpoint, account string, secret bls.SecretKey, vVec []bls.PublicKey) (bls.SecretKey, []bls.PublicKey, error) {
+func (s *clusterSender) SendContribution(ctx context.Context, r *core.Endpoint, account string, secret bls.SecretKey, vVec []bls.PublicKey) (rs bls.SecretKey, rv []bls.PublicKey, err error) {
+	defer s.c.guard("contribute", &err)
+	vVec = append([]bls.PublicKey{}, vVec...) // the network may alter its copy, never the sender's memory
 	m := &ClusterMsg{Kind: "contribute", From: s.from, To: r.ID, Account: account, Secret: &secret, VVec: &vVec}
 	if err := s.c.note(m); err != nil {
 		return bls.SecretKey{}, nil, err
